@@ -92,7 +92,8 @@ class PyDefCompiler:
         return f"{c.name}: {type(c.value).__qualname__} = {c.value}\n"
 
     def generate_string_constant(self, c: ConstantString) -> str:
-        return f"{c.name}: str = {c.value}\n"
+        # c.value is the text wrapped in double quotes: emit it as a python literal
+        return f"{c.name}: str = {c.value[1:-1]!r}\n"
 
     def generate_msg_type_id(self, mt: MT) -> str:
         return f"MT_{mt.name}: int = {mt.value}\n"
